@@ -20,6 +20,11 @@ pub(crate) enum PlatformFacade {
     /// Fake hardware for the public test-util feature.
     #[cfg(any(test, feature = "test-util"))]
     Fake(Arc<FakePlatform>),
+
+    /// Owned build-target platform over caller-supplied facades, for out-of-tree verification
+    /// harnesses.
+    #[cfg(folo_verif)]
+    Verif(std::sync::Arc<BuildTargetPlatform>),
 }
 
 impl PlatformFacade {
@@ -50,6 +55,8 @@ impl Platform for PlatformFacade {
             Self::Fallback(p) => p.get_all_processors(),
             #[cfg(any(test, feature = "test-util"))]
             Self::Fake(p) => p.get_all_processors(),
+            #[cfg(folo_verif)]
+            Self::Verif(p) => p.get_all_processors(),
         }
     }
 
@@ -63,6 +70,8 @@ impl Platform for PlatformFacade {
             Self::Fallback(p) => p.pin_current_thread_to(processors),
             #[cfg(any(test, feature = "test-util"))]
             Self::Fake(p) => p.pin_current_thread_to(processors),
+            #[cfg(folo_verif)]
+            Self::Verif(p) => p.pin_current_thread_to(processors),
         }
     }
 
@@ -73,6 +82,8 @@ impl Platform for PlatformFacade {
             Self::Fallback(p) => p.current_processor_id(),
             #[cfg(any(test, feature = "test-util"))]
             Self::Fake(p) => p.current_processor_id(),
+            #[cfg(folo_verif)]
+            Self::Verif(p) => p.current_processor_id(),
         }
     }
 
@@ -83,6 +94,8 @@ impl Platform for PlatformFacade {
             Self::Fallback(p) => p.max_processor_id(),
             #[cfg(any(test, feature = "test-util"))]
             Self::Fake(p) => p.max_processor_id(),
+            #[cfg(folo_verif)]
+            Self::Verif(p) => p.max_processor_id(),
         }
     }
 
@@ -93,6 +106,8 @@ impl Platform for PlatformFacade {
             Self::Fallback(p) => p.max_memory_region_id(),
             #[cfg(any(test, feature = "test-util"))]
             Self::Fake(p) => p.max_memory_region_id(),
+            #[cfg(folo_verif)]
+            Self::Verif(p) => p.max_memory_region_id(),
         }
     }
 
@@ -103,6 +118,8 @@ impl Platform for PlatformFacade {
             Self::Fallback(p) => p.current_thread_processors(),
             #[cfg(any(test, feature = "test-util"))]
             Self::Fake(p) => p.current_thread_processors(),
+            #[cfg(folo_verif)]
+            Self::Verif(p) => p.current_thread_processors(),
         }
     }
 
@@ -113,6 +130,8 @@ impl Platform for PlatformFacade {
             Self::Fallback(p) => p.max_processor_time(),
             #[cfg(any(test, feature = "test-util"))]
             Self::Fake(p) => p.max_processor_time(),
+            #[cfg(folo_verif)]
+            Self::Verif(p) => p.max_processor_time(),
         }
     }
 
@@ -123,6 +142,8 @@ impl Platform for PlatformFacade {
             Self::Fallback(p) => p.active_processor_count(),
             #[cfg(any(test, feature = "test-util"))]
             Self::Fake(p) => p.active_processor_count(),
+            #[cfg(folo_verif)]
+            Self::Verif(p) => p.active_processor_count(),
         }
     }
 }
@@ -142,6 +163,8 @@ impl Debug for PlatformFacade {
             Self::Fallback(inner) => inner.fmt(f),
             #[cfg(any(test, feature = "test-util"))]
             Self::Fake(inner) => inner.fmt(f),
+            #[cfg(folo_verif)]
+            Self::Verif(inner) => inner.fmt(f),
         }
     }
 }
